@@ -59,10 +59,11 @@ def splitReason (U : Problem) (ps : List Problem) (perm : List Nat) : String :=
       let nb := B.rows.map Row.norm
       let onlyA := na.zipIdx.filter fun q => !(nb.any fun s => q.1.same s)
       let onlyB := nb.zipIdx.filter fun q => !(na.any fun s => q.1.same s)
-      match onlyA.head? with
+      let ivsOf (r : Row) : List Nat := (r.coeffs.map fun p => intervalOf sizes p.1).eraseDups
+      let coupling := onlyA.filter fun q => (ivsOf q.1).length > 1
+      match (coupling ++ onlyA).head? with
       | some q =>
-        let ivs := (q.1.coeffs.map fun p => intervalOf sizes p.1).eraseDups
-        s!"{onlyA.length} row(s) of the unsplit problem have no counterpart among the interval rows ({onlyB.length} interval row(s) have none in the unsplit problem); first: unsplit row {q.2}, in split numbering {describeRow q.1}, over interval(s) {ivs}"
+        s!"{onlyA.length} row(s) of the unsplit problem have no counterpart among the interval rows, {coupling.length} of them over variables of several intervals ({onlyB.length} interval row(s) have none in the unsplit problem); e.g. unsplit row {q.2}, in split numbering {describeRow q.1}, over interval(s) {ivsOf q.1}"
       | none => match onlyB.head? with
       | some q =>
         let ivs := (q.1.coeffs.map fun p => intervalOf sizes p.1).eraseDups
